@@ -286,6 +286,18 @@ func randDescriptor(r *rng, kind string, budget int) *astits.Descriptor {
 				LocalTimeOffset: time.Duration(r.intn(24)*60+r.intn(60)) * time.Minute,
 				TimeOfChange:    time.Date(1900, 3, 1, r.intn(24), r.intn(60), r.intn(60), 0, time.UTC).AddDate(0, 0, day-15079),
 				NextTimeOffset:  time.Duration(r.intn(24)*60+r.intn(60)) * time.Minute})
+			if r.intn(4) == 0 {
+				// the ends of the range, to the last nanosecond: the first and the last day, the last second of a day with a fraction
+				it := x.Items[len(x.Items)-1]
+				switch r.intn(3) {
+				case 0:
+					it.TimeOfChange = time.Date(2038, 4, 22, 23, 59, 59, r.pick(0, 1, 500000000, 999999999), time.UTC)
+				case 1:
+					it.TimeOfChange = time.Date(1900, 3, 1, 0, 0, 0, r.pick(0, 1, 999999999), time.UTC)
+				default:
+					it.TimeOfChange = it.TimeOfChange.Add(time.Duration(r.pick(1, 499999999, 999999999)))
+				}
+			}
 		}
 		d.LocalTimeOffset = x
 	case "maxbitrate":
@@ -484,7 +496,33 @@ func runDesc(line []byte, rec *recorder) {
 		for i := 0; i < sc.N; i++ {
 			d := randDescriptor(r, sc.Tag, r.pick(255, 255, 60, 20))
 			setLength(d, modes[i%4], r)
-			descVec(rec, sc.Tag, []*astits.Descriptor{d})
+			wb := descVec(rec, sc.Tag, []*astits.Descriptor{d})
+			if sc.Tag == "vbidata" && len(wb) > 4 && wb[2] == 0x45 {
+				// the same descriptor as another multiplexer may write it: the two reserved bits of every line entry at 00 / 01 / 10 instead
+				// of 11 - a decoder ignores reserved bits
+				alt := append([]byte(nil), wb...)
+				for p := 4; p+1 < len(alt); {
+					id, n := alt[p], int(alt[p+1])
+					for j := p + 2; j < p+2+n && j < len(alt); j++ {
+						if id == 1 || id == 2 || id == 4 || id == 5 || id == 6 || id == 7 {
+							alt[j] = alt[j]&0x3f | byte(r.intn(3))<<6
+						}
+					}
+					p += 2 + n
+				}
+				var got []*astits.Descriptor
+				var off int
+				var gerr error
+				if pn := safeCall(func() { got, off, gerr = astits.VerifParseDescriptors(alt) }); pn != nil {
+					gerr = fmt.Errorf("panic %v", pn)
+				}
+				e := M{"ev": "dvec", "class": "vbidata-reserved-bits", "ds": projDescriptors([]*astits.Descriptor{d}), "wb": ints(wb), "wn": len(wb), "werr": "nil",
+					"got": []M{}, "gerr": errStr(gerr), "goff": off, "calc": len(wb) - 2}
+				if gerr == nil {
+					e["got"] = projDescriptors(got)
+				}
+				rec.ev(e)
+			}
 		}
 	case "loops":
 		// loops of very many small descriptors (257 and more entries in a few hundred bytes)
@@ -526,14 +564,20 @@ func runDesc(line []byte, rec *recorder) {
 			first, s1, s2 := mk("streamid"), mk("user"), mk("pds")
 			midKind := descKinds[r.intn(len(descKinds))]
 			mid := mk(midKind)
+			encFailed := false
 			enc := func(ds ...*astits.Descriptor) []byte {
 				b, _, err := astits.VerifWriteDescriptorsWithLength(ds)
 				if err != nil {
-					fatal("writing descriptors failed: %v", err)
+					descVec(rec, "malformed-base", ds) // a well-formed value the writer refuses: recorded and judged as a write vector
+					encFailed = true
+					return []byte{0, 0}
 				}
 				return b[2:]
 			}
 			a, m, z := enc(first), enc(mid), enc(s1, s2)
+			if encFailed {
+				continue
+			}
 			body := append([]byte(nil), m[2:]...)
 			how := r.pickS("shorter", "longer", "longer-garbage", "zero")
 			switch how {
